@@ -7,7 +7,7 @@
 (* every partition, the directory tree and the clients' memberships are    *)
 (* compared with the relations of IggyCatalogue.                           *)
 (***************************************************************************)
-EXTENDS IggyCatalogue, Json, IOUtils
+EXTENDS IggyCatalogue, Json, IOUtils, FiniteSetsExt
 
 Rec == ndJsonDeserialize(IOEnv.TRACE)
 
@@ -98,8 +98,14 @@ SetsAfter(e) ==
         THEN { x \in alive : <<x[1], x[2]>> # key } \cup {<<key[1], key[2], e.set>>}
         ELSE alive
 
+(* C16: the statistics are exact entity counts: streams, topics, partitions, segments (one per partition in this lens), groups, messages *)
+StatsAfter == << Cardinality(S'), Cardinality(T'), Cardinality(Cnt'), Cardinality(Cnt'), Cardinality(G'),
+                 FoldSet(LAMBDA c, acc : acc + c[4], 0, Cnt') >>
+
 SweepLabels(e) ==
     LET ob == e.obs IN
+    (IF Len(ob.stats) = 6 /\ ob.stats # StatsAfter THEN {<<"CAT.stats", ob.stats, StatsAfter>>} ELSE {}) \cup
+    (IF Len(ob.size_incons) > 0 THEN {<<"CAT.sizes", ob.size_incons[1]>>} ELSE {}) \cup
     Diff("CAT.settings", SetOf(ob.Tset), SetsAfter(e)) \cup
     Diff("CAT.streams", SetOf(ob.S), S')
     \cup Diff("CAT.topics", SetOf(ob.T), T')
